@@ -8,6 +8,7 @@ PROPS = {
     "C21": ["c21_needs"],
     "C24": ["c24_streams"],
     "C25": ["c24_streams"],
+    "C26": ["c26_server"],
     "C28": ["c24_streams"],
     "C38": ["c38_exchange"],
     "C41": ["c41_crc"],
